@@ -521,11 +521,11 @@ func (ex *Exec) sliceOp(fr *frame, instr *ssa.Slice) Value {
 		max = fr.get(instr.Max).(*Term)
 	}
 	where := ex.posOf(instr.Pos())
-	conc := func(t *Term, def int) int {
+	conc := func(t *Term, def int, v ssa.Value) int {
 		if t == nil {
 			return def
 		}
-		t = ex.tt.Resize(t, 64, true)
+		t = ex.tt.Resize(t, 64, isSigned(v.Type()))
 		return int(int64(ex.concretize(t, "slice bound at "+where)))
 	}
 	var length, capacity int
@@ -550,9 +550,9 @@ func (ex *Exec) sliceOp(fr *frame, instr *ssa.Slice) Value {
 	default:
 		panic(fmt.Sprintf("slice of %T", x))
 	}
-	l := conc(lo, 0)
-	h := conc(hi, length)
-	m := conc(max, capacity)
+	l := conc(lo, 0, instr.Low)
+	h := conc(hi, length, instr.High)
+	m := conc(max, capacity, instr.Max)
 	if isStr {
 		if l < 0 || h < l || h > length {
 			ex.rtPanic(fr, "slice", fmt.Sprintf("slice bounds out of range [%d:%d] with length %d", l, h, length), instr.Pos())
@@ -568,8 +568,8 @@ func (ex *Exec) sliceOp(fr *frame, instr *ssa.Slice) Value {
 	return Slice{data: data[l:h:m]}
 }
 
-func (ex *Exec) concIndex(fr *frame, idx *Term, n int, pos token.Pos) int {
-	idx = ex.tt.Resize(idx, 64, true)
+func (ex *Exec) concIndex(fr *frame, idx *Term, n int, pos token.Pos, signed bool) int {
+	idx = ex.tt.Resize(idx, 64, signed)
 	if !idx.IsConst() {
 		// first decide in-range vs out-of-range, then enumerate
 		inr := ex.tt.Cmp(OUlt, idx, ex.tt.BV(64, uint64(n)))
@@ -620,11 +620,11 @@ func scalarElems(vs []Value) bool {
 }
 
 // symIndex returns a SymPtr for a symbolic in-range index into scalar elements, or nil.
-func (ex *Exec) symIndex(fr *frame, elems []Value, idx *Term, pos token.Pos) *SymPtr {
+func (ex *Exec) symIndex(fr *frame, elems []Value, idx *Term, pos token.Pos, signed bool) *SymPtr {
 	if idx.IsConst() || !scalarElems(elems) {
 		return nil
 	}
-	idx = ex.tt.Resize(idx, 64, true)
+	idx = ex.tt.Resize(idx, 64, signed)
 	if idx.IsConst() {
 		return nil
 	}
@@ -642,12 +642,12 @@ func (ex *Exec) indexAddr(fr *frame, instr *ssa.IndexAddr) Value {
 		switch v := x.(type) {
 		case *Value:
 			if v != nil {
-				if sp := ex.symIndex(fr, []Value((*v).(Array)), idx, instr.Pos()); sp != nil {
+				if sp := ex.symIndex(fr, []Value((*v).(Array)), idx, instr.Pos(), isSigned(instr.Index.Type())); sp != nil {
 					return sp
 				}
 			}
 		case Slice:
-			if sp := ex.symIndex(fr, v.data, idx, instr.Pos()); sp != nil {
+			if sp := ex.symIndex(fr, v.data, idx, instr.Pos(), isSigned(instr.Index.Type())); sp != nil {
 				return sp
 			}
 		}
@@ -658,10 +658,10 @@ func (ex *Exec) indexAddr(fr *frame, instr *ssa.IndexAddr) Value {
 			ex.rtPanic(fr, "nil", "invalid memory address or nil pointer dereference (index of nil array pointer)", instr.Pos())
 		}
 		arr := (*v).(Array)
-		i := ex.concIndex(fr, idx, len(arr), instr.Pos())
+		i := ex.concIndex(fr, idx, len(arr), instr.Pos(), isSigned(instr.Index.Type()))
 		return &arr[i]
 	case Slice:
-		i := ex.concIndex(fr, idx, len(v.data), instr.Pos())
+		i := ex.concIndex(fr, idx, len(v.data), instr.Pos(), isSigned(instr.Index.Type()))
 		return &v.data[i]
 	}
 	panic(fmt.Sprintf("indexAddr of %T", x))
@@ -672,10 +672,10 @@ func (ex *Exec) indexOp(fr *frame, instr *ssa.Index) Value {
 	idx := fr.get(instr.Index).(*Term)
 	switch v := x.(type) {
 	case Array:
-		if sp := ex.symIndex(fr, []Value(v), idx, instr.Pos()); sp != nil {
+		if sp := ex.symIndex(fr, []Value(v), idx, instr.Pos(), isSigned(instr.Index.Type())); sp != nil {
 			return ex.symLoad(sp)
 		}
-		i := ex.concIndex(fr, idx, len(v), instr.Pos())
+		i := ex.concIndex(fr, idx, len(v), instr.Pos(), isSigned(instr.Index.Type()))
 		return copyVal(v[i])
 	case string, SymStr:
 		bs := ex.strBytes(x)
@@ -684,11 +684,11 @@ func (ex *Exec) indexOp(fr *frame, instr *ssa.Index) Value {
 			for i, b := range bs {
 				vs[i] = b
 			}
-			if sp := ex.symIndex(fr, vs, idx, instr.Pos()); sp != nil {
+			if sp := ex.symIndex(fr, vs, idx, instr.Pos(), isSigned(instr.Index.Type())); sp != nil {
 				return ex.symLoad(sp)
 			}
 		}
-		i := ex.concIndex(fr, idx, len(bs), instr.Pos())
+		i := ex.concIndex(fr, idx, len(bs), instr.Pos(), isSigned(instr.Index.Type()))
 		return bs[i]
 	}
 	panic(fmt.Sprintf("index of %T", x))
@@ -757,7 +757,7 @@ func (ex *Exec) lookup(fr *frame, instr *ssa.Lookup) Value {
 		return val
 	case string, SymStr:
 		bs := ex.strBytes(x)
-		i := ex.concIndex(fr, fr.get(instr.Index).(*Term), len(bs), instr.Pos())
+		i := ex.concIndex(fr, fr.get(instr.Index).(*Term), len(bs), instr.Pos(), isSigned(instr.Index.Type()))
 		return bs[i]
 	}
 	panic(fmt.Sprintf("lookup in %T", x))
